@@ -309,3 +309,18 @@ def get_atoms(self: 'MolecularGraph'):
     requires(typed(self._atoms, 'list'))
     pure()
     ensures(result == self._atoms, tag="C06:get-atoms")
+
+
+@contract("selfies/mol_graph.py::MolecularGraph.add_attribution", props=["C08", "C17"])
+def add_attribution(self: 'MolecularGraph', o, attr):
+    # attribution-free translation only (attribute=False); with attribution on, the bounded C17 check applies
+    requires(typed(self._attributable, 'bool') and not self._attributable)
+    pure()
+    ensures(typed(result, 'None'), tag="C17:no-attribution-no-effect")
+
+
+@spec
+def in_mol(mol, a):
+    return (typed(a, 'Atom') and not fresh(a) and typed(a.index, 'int') and 0 <= a.index and a.index < len(mol._atoms)
+            and mol._atoms[a.index] == a
+            and typed(a.element, 'str') and typed(a.charge, 'int') and typed(a.h_count, 'int|None'))
